@@ -1,6 +1,11 @@
 package clienteng
 
-import "verifharness/internal/ev"
+import (
+	"strconv"
+	"strings"
+
+	"verifharness/internal/ev"
+)
 
 func s1(k, v string) single { return single{K: k, V: v, Cl: classOf(v)} }
 
@@ -97,6 +102,18 @@ func fidelityCorpus(fe *fidEngine) {
 			Files: []fileSpec{{Name: `q"uote.txt`, Content: "a", Via: 0}, {Name: `back\slash.bin`, Field: `fi"eld`, Content: "b", Via: 2},
 				{Name: "semi;colon=eq ü.dat", Field: `f\x`, Content: "c", Via: 2}}}
 		fe.runConfig(c, cf, 2)
+	})
+	// readers of every behaviour, sizes around buffer boundaries, next to a path-based file
+	e.Corpus("file-reader-behaviours", func(c *ev.Case) {
+		rep := func(n int) string { return strings.Repeat("0123456789abcdefghijklmnopqrstuvwxyz+", n/37+1)[:n] }
+		for _, n := range []int{0, 1, 300, 4095, 4096, 4097, 32768, 1 << 20} {
+			cf := &config{Method: "POST", Tmpl: tmpl("/f"), Body: bFiles}
+			for rd := 0; rd <= 4; rd++ {
+				cf.Files = append(cf.Files, fileSpec{Name: "r" + strconv.Itoa(rd) + ".bin", Content: rep(n), Size: n, Reader: rd, Via: rd % 2 * 2})
+			}
+			cf.Files = append(cf.Files, fileSpec{Name: "disk.bin", Content: rep(n), Size: n, Via: 1})
+			fe.runConfig(c, cf, 1)
+		}
 	})
 	// a file given by explicit name AND path is uploaded under the explicit name
 	e.Corpus("file-explicit-name-with-path", func(c *ev.Case) {
